@@ -10,6 +10,11 @@ import (
 // Signature is what minimisation preserves: the violation class plus the further classes it establishes.
 func (v *Violation) Signature() string {
 	also := append([]string{}, v.Also...)
+	for _, f := range v.Facts {
+		if strings.HasPrefix(f, "underlying:") {
+			also = append(also, f) // the kind of mismatch behind a state-after-... class is part of what must be kept
+		}
+	}
 	sort.Strings(also)
 	return v.Class + "|" + strings.Join(uniq(also), ",")
 }
